@@ -2,7 +2,7 @@
 Oracles: pyref/bign.py (bign96 part; 2^103 multiplier as the library and its vectors implement), pyref/g12s.py,
 pyref/dstu.py (+ gf2x.py), pyref/pfok.py - independent models over Python ints, affine curve arithmetic."""
 import os
-from harness import Test, Fail, st, GEN
+from harness import Test, Sweep, Fail, Crash, st, GEN
 from gens import expand
 import pyref.bign as RB
 import pyref.g12s as RG
@@ -15,6 +15,7 @@ RULE = ("cases: bign96 (1 set) x d {1, 2, q-1, rnd, crafted so that S1 is small 
         "dstu (10 curves, base point from dstuPointGen on a tape, appendix point for 163) x d {1, 2^(L(n)-1)-1, n-1, rnd} x hashes (empty, short, exact, long, 0 -> 1, only bits >= m) x e {1, max, rnd} with zero draws x "
         "ld = 16*order_no + 16*{0,1,2,3,7,40}; compress/recover on points with tr(x) = A, tr(x) != A, x = 0, xpoint in {0, 1, 2, random, >= 2^m}; "
         "pfok (test + 3 standard sets) x keys {0, 1, 2^r-1, 2^(r-1), rnd} with tape bits above r; "
+        "dstu sweep: public key tied to the base point (d = 1, n - 1) x one-time keys 1..256 (96 on the long curves; 2000 thorough) x 3 hashes x 10 curves, sign then verify; "
         "alterations of every verifier input: single-bit flips of signature / hash / public key, component := 0 / order / + order / order - component, -Q, other key, x >= p, hash +- order, 0 <-> 1, other OID, other ld; "
         "the reference verifier decides: library accepts iff model accepts; public keys that are not valid (off the curve; dstu: rejected by 10.1) are not judged, except that a random bit flip / (0,0) must not verify (bign96, g12s). "
         "non-trivial: boundary key or hash, a rejected sample, any alteration, special point; distinct by (set, class tuple, altered field, verdict)")
@@ -672,6 +673,66 @@ def run_dstu_point(ctx, c):
     ctx.sample(c)
 
 
+def tied_one(ctx, case):
+    """public key tied to the base point (d = 1: Q = -P, d = n - 1: Q = P) and a small one-time key: the verifier's running sum r Q + s P meets +-P / +-Q with
+    Z != 1, the equal / opposite branches of the mixed addition.  Oracle: the signature dstuSign has just produced verifies (no model needed)."""
+    x = ctx.x
+    ci, dsel, e, hv = case["curve"], case["d"], case["e"], case["h"]
+    prm, M = dstu_params(ctx, ci, 0, check_model=False)
+    n, ono, no = M.n, M.order_no, M.no
+    d = 1 if dsel == 0 else n - 1
+    key = (M.name, dsel, RD.point_enc(M, M.P))
+    if key not in _TIED:
+        if len(_TIED) > 64:
+            _TIED.clear()
+        _TIED[key] = (RD.privkey_enc(M, d), RD.pubkey_calc(M, d))
+    privb, Qb = _TIED[key]
+    H = expand("tied%d" % hv, 32) if hv else bytes(31) + b"\x01"
+    ld = 16 * ono
+    sig = x.out(ld // 8)
+    tape = e.to_bytes(ono, "little") + expand("tied-next%d" % e, ono)
+    r = x.call("dstuSign", sig, prm, ld, x.buf(H), len(H), x.buf(privb), GEN, x.tape(tape, mode=0))
+    if r:
+        raise Fail("dstuSign(%s) d=%s one-time key %d: %s" % (M.name, "1" if dsel == 0 else "n-1", e, ename(r)))
+    r = x.call("dstuVerify", prm, ld, x.buf(H), len(H), sig, x.buf(Qb))
+    if r:
+        raise Fail("dstuVerify(%s) rejects the signature dstuSign has just produced: %s (d=%s, one-time key %d, hash %s, sig %s)" %
+                   (M.name, ename(r), "1" if dsel == 0 else "n-1", e, H.hex(), sig.read().hex()))
+    ctx.count(1)
+
+
+_TIED = {}
+
+
+def sweep_dstu_tied(ctx, part, nparts):
+    NE = 256 if ctx.tier == "quick" else 2000
+    j = 0
+    for ci in range(10):
+        if ci >= 5 and ctx.tier == "quick":
+            NE = 96                     # the long curves cost more per signature
+        for dsel in (0, 1):
+            for hv in (0, 1, 2):
+                j += 1
+                if j % nparts != part:
+                    continue
+                ctx.x.reset()
+                for e in range(1, NE + 1):
+                    case = {"curve": ci, "d": dsel, "e": e, "h": hv}
+                    try:
+                        tied_one(ctx, case)
+                    except (Fail, Crash) as ex:
+                        ex.case = case
+                        raise
+                ctx.cls("tied_curve%d_d%s" % (ci, "1" if dsel == 0 else "nm1"))
+                ctx.nontrivial("dstu_tied", ci, dsel, hv)
+    if part == 0:
+        ctx.sample({"sweep": "d in {1, n-1} x one-time keys 1..E x 3 hashes x 10 curves"})
+
+
+def replay_override(ctx, test, case):
+    tied_one(ctx, case)
+
+
 S_DSTU_POINT = st.fixed_dictionaries({
     "curve": st.sampled_from(CURVES + [5, 6, 7, 8, 9]), "seed": SEED, "kind": st.sampled_from(["sub", "sub", "sub", "nonsub", "x0", "base", "xp", "xp", "xp"]),
     "xk": st.sampled_from(["rnd", "rnd", "rnd", "rndhi", "zero", "one", "two", "three", "max", "hibit", "allm"]), "inplace": st.booleans(), "bit": st.integers(0, 4000)})
@@ -761,6 +822,7 @@ def tests(tier):
         Test("bign96", S_BIGN96, run_bign96, {"quick": 400, "thorough": 8000}, CFG),
         Test("g12s", S_G12S, run_g12s, {"quick": 400, "thorough": 8000}, CFG),
         Test("dstu", S_DSTU, run_dstu, {"quick": 288, "thorough": 4000}, CFG, shards=16),
+        Sweep("dstu_tied", sweep_dstu_tied, 16, CFG),
         Test("dstu_point", S_DSTU_POINT, run_dstu_point, {"quick": 350, "thorough": 6000}, CFG),
         Test("pfok", S_PFOK, run_pfok, {"quick": 300, "thorough": 6000}, CFG),
     ]
